@@ -238,6 +238,13 @@ def hidden_traces(o, system, hidden):
             continue
         if r in hidden_urls:
             probs.append(("link-to-hidden", page, url))
+    # index pages (class hierarchy, name index) name their rows by full name: <a name="pkg.mod.Class">, id="..."
+    hidden_names = {ob.fullName() for ob in hidden}
+    for page, root in o.pages.items():
+        for e in root.walk():
+            for k in ("id", "name"):
+                if e.attrs.get(k) in hidden_names and e.tag != "meta":
+                    probs.append(("hidden-named-anchor", page, e.attrs[k]))
     return probs
 
 
